@@ -298,7 +298,7 @@ SEEDS = {
     'C13-append-skips-label-duplicates': ('C13', 'BatchSimulation.append skips a simulation whose labels equal those of one already appended (labels carry no decoder parameters)', 'two decoder parameter sets', ''),
     'C15-mean-of-record-fractions': ('C15', 'p_est is the plain mean of per-record failure fractions', 'records of unequal length in one group', ''),
     'C15-dedupe-identical-records': ('C15', 'read_files skips records whose inputs and arrays hash like one already read', 'two distinct runs with identical outcomes',
-                                     'undecided: read_files is interpreted on abstract file locations; the fingerprint is computed from values the interpretation does not have'),
+                                     'undecided at first (the fingerprint was computed from values the interpretation did not have): read_files is evaluated with one concrete record per file, the SAME content in every file, and hashlib / json.dumps evaluated for real on concrete bytes'),
     'C16-label-abbreviates-containers': ('C16', 'get_label abbreviates long container-valued parameters: two families get one label and are fitted together', 'two parameter sets that differ late in a nested parameter',
                                          'missed at first: get_label is evaluated on pairs that differ deep inside a container (R16.2)'),
     'C16-find-files-accumulator-reset': ('C16', 'find_files resets its accumulator for every supplied path', 'a list of two or more locations',
